@@ -64,26 +64,32 @@ where
         } else {
             None
         };
+        // Octets in front of the payload, counted from the first flag octet
+        let mut header_length = minimal_length_minus_flags + 2;
         if flags.has_offset() {
             let offset_size = unsafe { reader.read_u16_be_unchecked() };
             if reader.len() < offset_size as usize {
                 return Err(DecodeError::InvalidOffset(offset_size));
             }
             reader.skip_bytes(offset_size as usize);
+            header_length += offset_size as usize;
         }
 
         let payload_length;
         if let Some(length) = maybe_length {
-            let minimal_length = minimal_length_minus_flags + 2;
-            if length as usize > reader.len() + minimal_length {
+            // The length field covers the whole message including its header
+            if (length as usize) < header_length {
+                return Err(DecodeError::IncompleteDataMessageHeader);
+            }
+            payload_length = length as usize - header_length;
+            if payload_length > reader.len() {
                 return Err(DecodeError::IncompleteDataMessagePayload);
             }
-            payload_length = length as usize;
         } else {
             payload_length = reader.len();
         }
 
-        if reader.is_empty() {
+        if payload_length == 0 {
             return Err(DecodeError::EmptyDataMessagePayload);
         }
 
